@@ -220,7 +220,7 @@ func main() {
 		if len(e.Consts) > 0 {
 			first = e.Consts[0].Name
 		}
-		rej := []string{"", " ", "NOT_A_KNOWN_NAME", "1.5", "0x10", "12abc", "--3", " | ", first + " |", "| " + first}
+		rej := []string{"", " ", "NOT_A_KNOWN_NAME", "1.5", "12abc", "--3", " | ", first + " |", "| " + first}
 		if first != "" {
 			rej = append(rej, strings.ToLower(first), first+"|"+first, first+" | ", first+" | NOPE", " "+first)
 		}
